@@ -22,6 +22,10 @@ func (n NativeClockFn) String() string {
 	return "<native fn>"
 }
 
+// stdinReader is shared by all calls of the input function, so that input
+// buffered while reading one line is not lost for the next call.
+var stdinReader *bufio.Reader
+
 // NativeInputFn defines the native `input` function for the interpreter.
 type NativeInputFn struct{}
 
@@ -50,9 +54,11 @@ func (n NativeInputFn) Call(i *Interpreter, arguments []interface{}) (interface{
 	}
 
 	// Read the input from the user
-	reader := bufio.NewReader(os.Stdin)
-	input, err := reader.ReadString('\n')
-	if err != nil {
+	if stdinReader == nil {
+		stdinReader = bufio.NewReader(os.Stdin)
+	}
+	input, err := stdinReader.ReadString('\n')
+	if err != nil && input == "" {
 		return nil, fmt.Errorf("failed to read input: %v", err)
 	}
 
